@@ -13,6 +13,7 @@ var All = map[string]func() *corr.Engine{
 	"C01": C01,
 	"C07": C07,
 	"C09": C09,
+	"C13": C13,
 	"C05": C05,
 	"C06": C06,
 }
